@@ -388,7 +388,7 @@ func judgeRecords(prop string) func(Hist) *h.Verdict {
 				return v.Failf("handler-panic/"+op.K+"/"+h.PanicFrame(res.Panics[0]), "step %d: handler panicked: %.2000s", step, res.Panics[0])
 			}
 			if res.Status >= 400 {
-				return v.Failf("valid-request-rejected/"+op.K, "step %d: well-formed %s answered %d %.200s", step, op.K, res.Status, res.Body)
+				return v.Failf(rejSig(res)+op.K, "step %d: well-formed %s answered %d %.200s", step, op.K, res.Status, res.Body)
 			}
 			for _, u := range op.UUs {
 				if u.Jumbo >= 100 {
@@ -505,3 +505,15 @@ func longOf(prop string) func(Hist) *h.Verdict {
 
 func TestC02Long(t *testing.T) { h.Run(t, "C02", "long", genRecLong, longOf("C02")) }
 func TestC03Long(t *testing.T) { h.Run(t, "C03", "long", genRecLong, longOf("C03")) }
+
+func genRecVolume(t *rapid.T) Hist {
+	hst := genVolumeHist(t, false)
+	hst.TZ = rapid.SampledFrom(zonePool).Draw(t, "tz")
+	return hst
+}
+func TestC02Volume(t *testing.T) {
+	h.Run(t, "C02", "volume", genRecVolume, volumeOf(judgeRecords("C02"), false))
+}
+func TestC03Volume(t *testing.T) {
+	h.Run(t, "C03", "volume", genRecVolume, volumeOf(judgeRecords("C03"), false))
+}
